@@ -8,3 +8,7 @@ import RexModel.Props.C08
 #print axioms Rex.C08.default_slot_untouched
 #print axioms Rex.C08.masked_write_noop
 #print axioms Rex.C08.slotOf_eq_kernel
+#print axioms Rex.C08.C08_ring_reads_live_message
+#print axioms Rex.C08.C08_ring_stale_not_read
+#print axioms Rex.C08.C08_default_until_full
+#print axioms Rex.C08.C08_replay_read_live
